@@ -8,8 +8,9 @@ recovery): what `ts_language_table_entry` / `ts_language_next_state` give for co
 Token extras (`shift_extra`: comments, …) are pushed without changing the state; a reduction of `n`
 symbols pops `n` NON-extra entries together with the extras between them, builds the parent from
 them and pushes the extras that were on top again (`ts_stack_pop_count`,
-`ts_subtree_array_remove_trailing_extras`, `ts_parser__reduce`).  Non-terminal extras are not
-modelled.
+`ts_subtree_array_remove_trailing_extras`, `ts_parser__reduce`).  Non-terminal extras: a state
+with `noLookahead` reduces under the `end` symbol without lexing, and the parent is an extra when
+the goto state equals the state below it.
 
 The machine works on a stack ABOVE a frame whose top state is `bottom`; a reduction that would pop
 below the frame stops the machine (`step = none`).  A whole parse is the case "frame = empty stack,
@@ -34,6 +35,9 @@ inductive Action where
 structure Table where
   action : Nat → Nat → Action     -- state, token symbol
   goto : Nat → Nat → Nat          -- state, non-terminal
+  /-- states at the end of a NON-TERMINAL EXTRA rule (`lex_modes[state].lex_state == -1`): the parser
+  does not lex there but performs the reduction stored under the `end` symbol -/
+  noLookahead : Nat → Bool := fun _ => false
 
 inductive PTree where
   | leaf (tok : Tok)
@@ -63,14 +67,25 @@ def popN : Stack → Nat → Option (List Entry × Stack)
     | none => none
 
 /-- The configuration after reducing the popped entries `p` (top first) to `A` above `r`. -/
-def pushReduced (T : Table) (bottom : Nat) (A : Nat) (p : List Entry) (r : Stack) : Stack :=
+def pushReduced (T : Table) (bottom : Nat) (A : Nat) (p : List Entry) (r : Stack) (ntExtra : Bool := false) : Stack :=
   let g := T.goto (top bottom r) A
   let trailing := p.takeWhile (·.extra)
   let kids := (p.dropWhile (·.extra)).reverse.map (·.tree)
-  trailing.map (fun e => { e with state := g }) ++ { state := g, tree := .node A kids, extra := false } :: r
+  -- `ts_parser__reduce`: `if (end_of_non_terminal_extra && next_state == state) parent.extra = true`
+  trailing.map (fun e => { e with state := g }) ++
+    { state := g, tree := .node A kids, extra := ntExtra && g == top bottom r } :: r
 
 /-- One machine step on look-ahead `inp.head`. -/
 def step (T : Table) (bottom : Nat) (st : Stack) (inp : List Tok) : Option (Stack × List Tok) :=
+  if T.noLookahead (top bottom st) then
+    -- end of a non-terminal extra: no token is lexed, the reduction under `end` (symbol 0) is taken
+    match T.action (top bottom st) 0 with
+    | .reduce A n =>
+      match popN st n with
+      | some (p, r) => some (pushReduced T bottom A p r true, inp)
+      | none => none
+    | _ => none
+  else
   match inp with
   | [] => none
   | x :: rest =>
